@@ -524,8 +524,25 @@ class DestHandler:
                 )
 
     def __non_idle_fsm(self, packet: GenericPduPacket | None) -> None:
-        self._fsm_advancement_after_packets_were_sent()
         pdu_holder = PduHolder(packet)
+        if (
+            packet is not None
+            and len(self._pdus_to_be_sent) == 0
+            and self.transmission_mode == TransmissionMode.ACKNOWLEDGED
+            and pdu_holder.pdu_type == PduType.FILE_DIRECTIVE
+            and pdu_holder.pdu_directive_type == DirectiveType.EOF_PDU
+            and pdu_holder.to_eof_pdu().condition_code != ConditionCode.NO_ERROR
+            and self.states.step
+            in [
+                TransactionStep.SENDING_EOF_ACK_PDU,
+                TransactionStep.WAITING_FOR_MISSING_DATA,
+            ]
+        ):
+            # An EOF (cancel) PDU can also arrive after the EOF (No Error) PDU, perform the Cancel
+            # Response Procedures according to chapter 4.6.6 of the standard.
+            self._handle_eof_cancel(pdu_holder.to_eof_pdu())
+            return
+        self._fsm_advancement_after_packets_were_sent()
         if (
             packet is not None
             and self.transmission_mode == TransmissionMode.ACKNOWLEDGED
@@ -614,7 +631,23 @@ class DestHandler:
         self._common_first_packet_not_metadata_pdu_handler(eof_pdu)
         self._handle_eof_without_previous_metadata(eof_pdu)
 
+    def _handle_eof_cancel(self, eof_pdu: EofPdu) -> None:
+        assert self._params.remote_cfg is not None
+        self._trigger_notice_of_completion_canceled(
+            eof_pdu.condition_code,
+            EntityIdTlv(self._params.remote_cfg.entity_id.as_bytes),
+        )
+        self._params.finished_params.delivery_code = DeliveryCode.DATA_INCOMPLETE
+        self._file_transfer_complete_transition()
+
     def _handle_eof_without_previous_metadata(self, eof_pdu: EofPdu) -> None:
+        if eof_pdu.condition_code != ConditionCode.NO_ERROR:
+            # EOF (cancel): Do not wait for the missing metadata.
+            if self.cfg.indication_cfg.eof_recv_indication_required:
+                assert self._params.transaction_id is not None
+                self.user.eof_recv_indication(self._params.transaction_id)
+            self._handle_eof_cancel(eof_pdu)
+            return
         self._params.fp.progress = eof_pdu.file_size
         self._params.fp.file_size_eof = eof_pdu.file_size
         self._params.fp.crc32 = eof_pdu.file_checksum
